@@ -178,7 +178,7 @@ def inline_unknown_private(facts, body, depth=3):
 # `it.for_each(|x| body)` and `for x in it { body }`. std's side of it is not part of the workspace, so the view spells the
 # documented behaviour of the adaptor out around the closure's own blocks (which are part of the workspace): a discriminant
 # switch on the receiver for the one-shot combinators, a loop around a (synthetic) `Iterator::next` for the adaptors.
-ONE_SHOT = ("map", "map_or", "is_some_and", "is_ok_and", "is_none_or", "and_then", "unwrap_or_else", "then", "filter", "inspect")
+ONE_SHOT = ("map", "map_or", "is_some_and", "is_ok_and", "is_none_or", "and_then", "unwrap_or_else", "ok_or_else", "then", "filter", "inspect")
 LOOPING = ("for_each", "try_for_each", "any", "all")
 MAX_CLOSURE_BLOCKS = 80
 
@@ -194,7 +194,20 @@ def _use(lhs, op, sp):
 def _L(l, p=()): return {"l": l, "p": list(p)}
 
 
-def desugar_closures(facts, body, rounds=2):
+def _from_fn_source(cur, du, by_path, t):
+    """(closure body, local holding the closure) when the iterator handed to the adaptor call `t` is `std::iter::from_fn(closure)`"""
+    from .cfg import Slice
+    if not t.args or t.args[0].place is None: return None
+    for k, o in Slice(cur, du, extra_pass=("=by_ref", "=into_iter")).origins(t.args[0], follow_agg=False):
+        if k == "call" and not o.callee.indirect and o.callee.name == "from_fn" and "iter" in o.callee.path and o.args and o.args[0].place is not None:
+            for kk, oo in Slice(cur, du).origins(o.args[0], follow_agg=False):
+                if kk == "agg" and isinstance(oo.agg, dict) and oo.agg.get("closure"):
+                    g = by_path.get(oo.agg["closure"])
+                    if g is not None and len(g.d["blocks"]) <= MAX_CLOSURE_BLOCKS: return g, oo.lhs.l
+    return None
+
+
+def desugar_closures(facts, body, rounds=3):
     """view of `body` (a Body, possibly already an inlined view) with closure-taking std combinators and iterator adaptors
     replaced by explicit control flow around the closure's blocks. Returns the same object when nothing applies."""
     from .cfg import DefUse, ref_chain
@@ -350,6 +363,13 @@ def desugar_closures(facts, body, rounds=2):
                     nst = [_agg(adt, "None", 0, [], dest, sp)]
                     # filter hands the closure a reference to the payload
                     blocks[Y]["stmts"] = enter([{"s": "assign", "lhs": _L(first_param), "rv": {"r": "ref", "bk": "shared", "place": _L(recv, ["as Some#1", ".0#0"])}, "sp": sp, "syn": True}], None)
+                elif n == "ok_or_else" and kind == "option":
+                    # Some(x) -> Ok(x); None -> Err(f())
+                    J = new_block([_agg("std::result::Result", "Err", 1, [{"m": _L(res)}], dest, sp)], {"t": "goto", "target": cont, "sp": sp})
+                    blocks[Y]["stmts"] = [_agg("std::result::Result", "Ok", 0, [{"m": _L(recv, ["as Some#1", ".0#0"])}], dest, sp)]
+                    blocks[Y]["term"] = {"t": "goto", "target": cont, "sp": sp}
+                    nst = None
+                    Nb = new_block(enter([], None), {"t": "goto", "target": boff, "sp": sp})
                 elif n == "unwrap_or_else":
                     # the closure runs on the *bad* variant
                     J = new_block([_use(dest, {"m": _L(res)}, sp)], {"t": "goto", "target": cont, "sp": sp})
@@ -404,8 +424,27 @@ def desugar_closures(facts, body, rounds=2):
                         blocks[rb]["term"] = {"t": "goto", "target": J, "sp": sp}
                 S = new_block([{"s": "assign", "lhs": _L(dl), "rv": {"r": "discr", "place": _L(item)}, "sp": sp, "syn": True}],
                               {"t": "switch", "discr": {"m": _L(dl)}, "targets": [[0, X], [1, Y]], "otherwise": X, "sp": sp, "syn": True})
-                blocks[H] = {"cleanup": False, "stmts": [], "term": {"t": "call", "callee": {"path": "std::iter::Iterator::next", "name": "next", "trait": "std::iter::Iterator", "impl_self": "?", "synthetic": True},
-                             "args": [args[0]], "dest": _L(item), "target": S, "unwind": unw, "sp": sp}}
+                gen = _from_fn_source(cur, du, by_path, cur.blocks[bi].term)
+                if gen is not None and len(blocks) + len(gen[0].d["blocks"]) + 4 <= MAX_BLOCKS:
+                    # `iter::from_fn(|| ..)`: its next() *is* the closure; write that call out too
+                    g, genv = gen
+                    goff = len(locs); locs.extend(copy.deepcopy(g.d["locals"]))
+                    gboff = len(blocks)
+                    for j, gb in enumerate(g.d["blocks"]):
+                        nb = {"cleanup": gb["cleanup"], "stmts": [_ren_stmt(x, goff) for x in gb["stmts"]], "term": _ren_term(gb["term"], goff, gboff)}
+                        k = nb["term"].get("t")
+                        if k == "return":
+                            nb["stmts"].append(_use(_L(item), {"m": _L(goff)}, sp)); nb["term"] = {"t": "goto", "target": S, "sp": sp}
+                        elif k == "resume" and isinstance(unw, int): nb["term"] = {"t": "goto", "target": unw, "sp": sp}
+                        blocks.append(nb)
+                    gty = g.d["locals"][1] if len(g.d["locals"]) > 1 else ""
+                    gty = gty if isinstance(gty, str) else gty.get("ty", "")
+                    bind = {"s": "assign", "lhs": _L(goff + 1), "rv": {"r": "ref", "bk": "mut", "place": _L(genv)}, "sp": sp, "syn": True} if gty.startswith("&") else _use(_L(goff + 1), {"c": _L(genv)}, sp)
+                    blocks[H] = {"cleanup": False, "stmts": [bind], "term": {"t": "goto", "target": gboff, "sp": sp}}
+                    done.append((g.path, "from_fn", sp))
+                else:
+                    blocks[H] = {"cleanup": False, "stmts": [], "term": {"t": "call", "callee": {"path": "std::iter::Iterator::next", "name": "next", "trait": "std::iter::Iterator", "impl_self": "?", "synthetic": True},
+                                 "args": [args[0]], "dest": _L(item), "target": S, "unwind": unw, "sp": sp}}
                 blocks[bi]["term"] = {"t": "goto", "target": H, "sp": sp, "syn_call": t.get("callee", {}).get("path")}
             done.append((cb.path, n, sp))
         nb = Body(d, cur.unit)
